@@ -97,7 +97,7 @@ def evolve_events(job, t):
         p1["nlisted"] = p1.get("nlisted") if p1.get("others") == p0.get("others") else -1
     out.append({"op": "Evolve", "kind": job["kind"], "served": c1.get("ran") == [], "same": c1.get("got") == c0.get("got") and "got" in c1,
                 "memento": bool(p1.get("memento")),
-                "extok": len(p1.get("invs", [])) == 1 and (not want_ext or all(x[1] for x in p1["invs"]))
+                "extok": len(p1.get("invs", [])) == 1 and (not want_ext or all(x[1] for x in p1["invs"])) and all(x[2] for x in p1["invs"] if len(x) > 2)
                 and [x[0] for x in p1["invs"]] == [x[0] for x in p0.get("invs", [])],   # still names what was called
                 "listok": p1.get("nlisted") == 1, "exc": exc})
     return out
